@@ -17,7 +17,8 @@ import json
 import common
 from common import Broken
 
-THEOREMS = ["C18_reads_exist", "C18_eq_covers", "C18_merge", "C18_gate", "C18_schema_gaps_known", "C18_eq_total", "C18_eq_refl", "C18_gate_blocks"]
+THEOREMS = ["C18_reads_exist", "C18_eq_covers", "C18_merge", "C18_gate", "C18_schema_gaps_known", "C18_eq_total", "C18_eq_refl", "C18_gate_blocks",
+            "C18_eq_distinguishes"]
 
 KNOWN_GAPS = {
     "C18|load|kind:integerLiteral|schema-valid-document-fails-to-load": ("kind", "integerLiteral"),
@@ -68,6 +69,11 @@ theorem C18_gate_blocks : runMain false Gen.spec.mainOrder = (false, false) := g
 example : wfVal Gen.spec 4 (.node n!"BaseType" [(n!"kind", .atom (.str n!"base")), (n!"name", .atom (.str n!"string"))]) = true := by decide +kernel
 
 #eval (schemaGaps Gen.spec Gen.schemaDefs Gen.schemaKinds).map (fun g => (g.1.toString, g.2.toString))
+
+/-- loads of structurally different documents compare unequal: if `==` answers True the two models have the same structure
+    (`strip`: every attribute an `__eq__` reads, at every depth; by `C18_eq_covers` only annotation fields are not read) -/
+theorem C18_eq_distinguishes (n : Nat) (a b : Val) (h : eqVal Gen.spec n a b = .t) : strip Gen.spec n a = strip Gen.spec n b :=
+  eqVal_strip Gen.spec n a b h
 """ + "".join(f"#print axioms {t}\n" for t in THEOREMS)
         common.write_module(ctx.work, "Inst", inst)
         res = common.lean_compile(ctx.work, [["GenLoader"], ["Inst"]])
